@@ -18,6 +18,11 @@ Record gstep := {
   gs_reason : N;
   gs_depth1 : N;               (* call depth after the step *)
   gs_saved_top1 : N;           (* context gas saved in the innermost frame after the step (0 if none) *)
+  (* quantities the instruction reads while executing, observed before the step: *)
+  gs_code_size : option N;     (* size of the contract code named by the operand (None: absent / unreadable) *)
+  gs_blob_size : option N;     (* size of the blob named by the operand *)
+  gs_new_entry : bool;         (* the balance entry credited by CALL/TR/MINT does not exist yet *)
+  gs_micro : list smicro;      (* storage micro-operations the instruction attempts, in order *)
 }.
 Record gcase := {
   gc_costs : list (string * cost_val);
@@ -46,17 +51,23 @@ Definition step_gas (costs : list (string * cost_val)) (st : gstate) (s : gstep)
   else
     let w := gs_raw s in
     let op := opcode_of w in
-    match first_charge costs op w (fv s) with
+    let o := fun q => match q with OCodeSize => gs_code_size s | OBlobSize => gs_blob_size s end in
+    match step_charges costs op w (fv s) o (gs_new_entry s) (gs_micro s) with
     | None => None
-    | Some (amount, exact) =>
+    | Some (l, complete) =>
         if (gs_outcome s =? 4) && (gs_reason s =? PANIC_OutOfGas) then
-          (* out of gas: for an exactly-priced instruction the price must exceed cgas *)
-          if exact && (amount <=? cgas st) then None
+          (* out of gas: some charge of the sequence must exceed what is left when it is made
+             (if the sequence is only partly known, the unknown rest may be the one) *)
+          if complete && negb (oog_justified (cgas st) l) then None
           else match gas_charge st (cgas st + 1) with GOutOfGas st' => Some st' | _ => None end
         else if ggas st <? gs_g1 s then None
         else
           let delta := ggas st - gs_g1 s in
-          if (if exact then negb (delta =? amount) else delta <? amount) then None
+          let exact_ok :=
+            if gs_outcome s =? 4
+            then existsb (N.eqb delta) (prefix_sums 0 l)      (* panicked after some of its charges *)
+            else complete && (delta =? sum l) in              (* completed: the exact total *)
+          if negb exact_ok then None
           else
             match gas_charge st delta with
             | GOk st1 =>
